@@ -101,6 +101,8 @@ def _builtin_corpus():
         ("exists", ["exists", q1]),
         ("valuewrapper", ["vwterm", fa("x")]),
         ("attimezone", ["attz", fa("x"), "UTC"]),
+        ("values-field", ["values", fa("x")]),
+        ("ch-length", ["ch_length", fa("p")]),
         ("set-operation", ["union", q1, {"from": [list(A)], "selects": [["field", "y", list(A), None]], "where": None}]),
         # shapes on which the property holds
         ("ok-basic", ["basic", "eq", fa("x"), fa("y"), None]),
@@ -112,6 +114,15 @@ def _builtin_corpus():
         ("ok-near-miss-alias", ["arith", "add", fa("x"), ["field", "x", ["a", [], "al"], None], None]),
     ]
     out = [{"kind": "term", "A": A, "B": B, "t": t, "fam": "corpus:" + n} for n, t in terms]
+    Ax, Bx = ["a", [], "x"], ["b", [], "bb"]          # aliased: str() of a column then shows the table
+    fx = lambda n: ["field", n, list(Ax), None]      # noqa: E731
+    terms_x = [
+        ("bitand-term-value", ["bitand_t", fc, fx("q")]),
+        ("ch-hasany-left", ["ch_hasany", fx("p"), fc]),
+        ("ch-hasany-right", ["ch_hasany", fc, fx("q")]),
+        ("ch-tofixedstring", ["ch_tofixed", fx("p"), 3]),
+    ]
+    out += [{"kind": "term", "A": Ax, "B": Bx, "t": t, "fam": "corpus:" + n} for n, t in terms_x]
     stmts = [
         ("with", dict(sel, **{"with": [["w", q1]]})),
         ("cross-join", dict(sel, joins=[["cross", ["table", ["d", [], None]]]])),
